@@ -1,6 +1,9 @@
 (** C08 — value-log separation and GC never change or lose a live value. *)
 From Coq Require Import List NArith Bool.
-From NoKV Require Import Base.Bytes Base.Num Model.EntryCodec Model.Lsm Model.Vlog Spec.MvccSpec Spec.VlogSpec Proofs.VlogProofs.
+From NoKV Require Import Base.Bytes Base.Num Base.Sched Model.EntryCodec Model.Lsm Model.Vlog Spec.MvccSpec Spec.VlogSpec
+     Proofs.VlogProofs Proofs.VlogGcProofs.
+Import ListNotations.
+Local Open Scope N_scope.
 
 (** One value-log record: what ReadValue decodes is the value that was encoded, for every key,
     value, meta byte and expiry. *)
@@ -8,3 +11,92 @@ Theorem C08_record_roundtrip : forall e, entry_ok e ->
   decode_value_slice (enc_entry e) = VsOk (e_val e) (blen (e_key e)) (blen (e_val e)) (e_meta e) (e_exp e).
 Proof. exact rt_value_slice. Qed.
 Print Assumptions C08_record_roundtrip.
+
+(** Values of any size, for any bucket count, value-log file size (any number of file rotations,
+    oversize records included) and threshold, read back byte for byte through GetVersionedEntry
+    and through Get/GetCF/Txn.Get, after any history of write requests (single entries or
+    transaction batches), memtable rotations and flushes.  [ops_okb] is the side condition of the
+    LSM read theorem (C01/C02: ghost numbers increase, a write's version is not below an earlier
+    version of its key) plus "no offset, length or file id reaches 2^32". *)
+Theorem C08_roundtrip : forall c m ops now,
+  c_nb c <= two32 -> ops_okb c (init_db c m) nil ops = true ->
+  let d := vrun c (init_db c m) ops in
+  stores now (fun k v => gobs (db_get d k v)) (fun k v => gobs (db_get_live now d k v)) (vwrites ops).
+Proof. exact roundtrip. Qed.
+Print Assumptions C08_roundtrip.
+
+(** GC, call-atomic.  The full statement "rewrite never changes a read" is refuted on the
+    faithful model: two transactions write a, the memtable is sealed, GC rewrites the file of the
+    first version -> the old version answers (finding C08-F4gc). *)
+Theorem C08_gc_preserves_reads_refuted :
+  exists c ops now bk fid nseq k v,
+    ops_okb c (init_db c 1) [] ops = true /\
+    let d := vrun c (init_db c 1) ops in
+    gobs (db_get (fst (rewrite c now d bk fid nseq)) k v) <> gobs (db_get d k v).
+Proof. exact gc_preserves_reads_refuted. Qed.
+Print Assumptions C08_gc_preserves_reads_refuted.
+
+(** What holds: (1) the write-back changes no read when every moved entry is the newest version of
+    its key ([chain_ok], the excluded class of the refutation; always true for plain-API keys) and
+    carries what is visible at its internal key ([dups]); the file stays in this pass.
+    (2) the removal of a file from which nothing had to be moved changes no read, unless a
+    deleted/expired entry still holds a value pointer (finding C08-F31). *)
+Theorem C08_gc_preserves_reads_partial_writeback : forall c now d ws bk fid nseq wb,
+  Inv c d ws -> gc_decide now d bk fid nseq = Some wb -> wb <> [] ->
+  chain_ok ws wb -> Forall rec_ok wb -> dups ws wb -> vsmall (d_vl (db_write c d wb)) ->
+  forall t k v, let d' := fst (rewrite c now d bk fid nseq) in
+    gobs (db_get d' k v) = gobs (db_get d k v) /\ gobs (db_get_live t d' k v) = gobs (db_get_live t d k v).
+Proof. exact gc_move_preserves. Qed.
+Print Assumptions C08_gc_preserves_reads_partial_writeback.
+
+Theorem C08_gc_preserves_reads_partial_remove : forall c now d ws bk fid nseq,
+  Inv c d ws -> gc_decide now d bk fid nseq = Some [] ->
+  forallb (fun w => negb (is_big c w && dead now w)) ws = true ->
+  forall k v, db_get (fst (rewrite c now d bk fid nseq)) k v = db_get d k v.
+Proof. exact gc_remove_preserves. Qed.
+Print Assumptions C08_gc_preserves_reads_partial_remove.
+
+(** [Inv] is what every history of admissible operations establishes (used by the two theorems above). *)
+Theorem C08_inv_reachable : forall c ops d hist,
+  Inv c d hist -> ops_okb c d hist ops = true -> Inv c (vrun c d ops) (hist ++ vwrites ops).
+Proof. exact vrun_Inv. Qed.
+Print Assumptions C08_inv_reachable.
+
+(** GC against a concurrent writer (rewrite split at its yield point).  Refuted: a plain Set /
+    Del of a key GC has decided to move is overwritten by GC's stale copy (finding C08-F12). *)
+Theorem C08_gc_sched_refuted :
+  exists c ops batch now bk fid nseq sched k,
+    ops_okb c (init_db c 1) [] ops = true /\
+    let g0 := {| g_db := vrun c (init_db c 1) ops; g_pc := GcStart; g_todo := [batch]; g_acked := vwrites ops |} in
+    let g := Sched.run (gtstep c now bk fid nseq) g0 sched in
+    g_todo g = [] /\ g_pc g = GcDone /\
+    gobs (db_get (g_db g) k max_ver) <> spec_getv (g_acked g) k max_ver.
+Proof. exact gc_sched_refuted. Qed.
+Print Assumptions C08_gc_sched_refuted.
+
+Theorem C08_gc_sched_delete_resurrected :
+  exists c ops batch now bk fid nseq sched k,
+    ops_okb c (init_db c 1) [] ops = true /\
+    let g0 := {| g_db := vrun c (init_db c 1) ops; g_pc := GcStart; g_todo := [batch]; g_acked := vwrites ops |} in
+    let g := Sched.run (gtstep c now bk fid nseq) g0 sched in
+    spec_get now (g_acked g) k max_ver = ONone /\
+    exists v, gobs (db_get_live now (g_db g) k max_ver) = OVal v 0.
+Proof. exact gc_sched_del_refuted. Qed.
+Print Assumptions C08_gc_sched_delete_resurrected.
+
+(** What holds for every schedule: if the writer's request does not change what GC decides
+    (e.g. transactional writes, whose versions are unique: [stable_ex]), every interleaving ends
+    in the state of a serial execution with GC call-atomic. *)
+Theorem C08_gc_sched_partial : forall c now bk fid nseq d0 batch acked0,
+  gc_decide now (db_write c d0 batch) bk fid nseq = gc_decide now d0 bk fid nseq ->
+  forall sched,
+    serial c now bk fid nseq d0 batch
+           (Sched.run (gtstep c now bk fid nseq)
+                      {| g_db := d0; g_pc := GcStart; g_todo := [batch]; g_acked := acked0 |} sched).
+Proof. exact serial_all. Qed.
+Print Assumptions C08_gc_sched_partial.
+
+(** The boolean oracle of the correspondence decides equality of observations. *)
+Theorem C08_oracle_decides : forall a b, obs_eqb a b = true <-> a = b.
+Proof. exact obs_eqb_spec. Qed.
+Print Assumptions C08_oracle_decides.
